@@ -335,7 +335,7 @@ ExecElem(ss, src, S, ins, nss0, parH) ==
         ex2 == S.ex \cup ExclURIs(Flat(nss), ins.excl)
         (* the excluded list is keyed by prefix: a URI excluded further out is forgotten once its prefix is *)
         (* excluded again with another URI, so a declaration XSLT excludes can survive                      *)
-        kept == \E k \in 1..Len(H.decls) : /\ H.decls[k][1] # ins.p /\ H.decls[k][1] \notin {ins.attrs[j].p : j \in 1..Len(ins.attrs)}
+        kept == \E k \in 1..Len(H.decls) : /\ H.decls[k][1] # ins.p /\ H.decls[k][1] \notin ({ins.attrs[j].p : j \in 1..Len(ins.attrs)} \ {""})
                                            /\ LookupNss(nss, H.decls[k][1]) \in ex2
         S1  == StartElement([(IF kept THEN Tag(S, "staleExcludedPrefix") ELSE S) EXCEPT !.ex = ex2], ins.p, ins.l)
         S2  == OutputResultNamespaces(S1, H.decls, 1)
